@@ -170,9 +170,15 @@ def execute_monitor(ctx, text, replay):
             return
         ctx.count('script-own-error:' + str(stop[1]))
     if r.mon is not None and r.mon.faults and not r.stops:
-        ctx.violation('accepted:automaton:' + re.sub(
-            r'[0-9]+', 'N', r.mon.faults[0])[:50],
-            '{} | {}'.format(r.mon.faults[:2], text[:300]), replay)
+        # leftovers at the end of a run (quiescence) are C05's business for
+        # well-formed programs; here only faults of the machinery count
+        hard = [f for f in r.mon.faults if not f.startswith('run ended with')]
+        if hard:
+            ctx.violation('accepted:automaton:' + re.sub(
+                r'[0-9]+', 'N', hard[0])[:50],
+                '{} | {}'.format(hard[:2], text[:300]), replay)
+        else:
+            ctx.count('leftover-at-end-of-run')
     if r.thread_exc:
         ctx.violation('accepted:thread-exception', repr(r.thread_exc[:1]),
                       replay)
